@@ -80,7 +80,8 @@ type Case struct {
 // (the last five are other spellings of names that exist in some layers: not valid fs.FS paths,
 // so they are present in no layer)
 var defaultPaths = []string{".", "a", "d", "d/x", "d/y", "e", "e/z", "nope", "d/nope", "a/nope", "./a", "d/", "/a", "d//x", "d/../a"}
-var defaultPatterns = []string{"*", "*/*", "d/*", "?", "[ad]*", "a", "d/x", "e/?", "nope*", "[", "*/x"}
+// (a run of stars is one star to path.Match: "**/x" means "*/x", exactly one directory level)
+var defaultPatterns = []string{"*", "*/*", "d/*", "?", "[ad]*", "a", "d/x", "e/?", "nope*", "[", "*/x", "**", "**/*", "d/**", "**/x", "d**/*", ".*"}
 
 // closure adds implied parent directories to a layer description.
 func closure(l Layer) map[string]Entry {
@@ -724,7 +725,7 @@ func genLayer(t *rapid.T, idx int) Layer {
 		return Layer{Nil: true}
 	}
 	// (names that differ only in case are different names; dots, blanks and unicode are ordinary)
-	universe := []string{"a", "b", "d", "d/x", "d/y", "d/s", "d/s/t", "e", "e/z", "d-b", "d-b/x", "d.o", "d.o/x", "A", "D", "D/x", "d/X", "e/Z", "a b", "é", "d/é.x"}
+	universe := []string{".a", ".d/x", "a", "b", "d", "d/x", "d/y", "d/s", "d/s/t", "e", "e/z", "d-b", "d-b/x", "d.o", "d.o/x", "A", "D", "D/x", "d/X", "e/Z", "a b", "é", "d/é.x"}
 	m := map[string]Entry{}
 	blocked := map[string]bool{}
 	for _, p := range universe {
